@@ -19,7 +19,9 @@ def verdict(d):
     if d is None:
         return "not run"
     if d["rc"] == 1 and d["line"].startswith("VIOLATION"):
-        return "broken proof / correspondence, no input found" if "no-failing-input-found" in d["line"] else "concrete input"
+        if "no-failing-input-found" in d["line"]:
+            return "broken proof / correspondence, no input found (%s)" % (d.get("key") or "")[:90]
+        return "concrete input: " + ", ".join("`%s`" % k for k in (d.get("keys") or [d.get("key", "")])[:3])
     if d["rc"] == 0:
         return "MISSED"
     return "machinery: " + d["line"][:60]
